@@ -30,6 +30,15 @@ pub fn scenarios(thorough: bool) -> Vec<Scenario> {
     mnet.cfg.pairs = false;
     mnet.cfg.faucets = false;
     v.push(mnet);
+    // testnet after activation, still inside the legacy deposit window (< 978392): deposits and withdrawals settle with counts on
+    let mut td = pools.clone();
+    td.swaps = false;
+    td.mints = false;
+    td.overpay = false;
+    let mut tds = sc("testnet-counted-legacy-deposits", NetID::Testnet, 0, td, if thorough { 8 } else { 6 });
+    // cross the activation height by real blocks (a fabricated jump past it would skip the TIP-906 transition)
+    tds.pre = vec![Action::Jump(498), Action::Open, Action::Seal(None), Action::Open, Action::Seal(None)];
+    v.push(tds);
     if thorough {
         let mut tp = sc("testnet-activation-pools", NetID::Testnet, 0, pools, 8);
         tp.pre = vec![Action::Jump(498)];
